@@ -91,6 +91,7 @@ def run(ctx):
     states = enumerate_cfgs(ctx, "fwd")
     n = 0
     nexec = [0]
+    nhist = 0
     with warnings.catch_warnings():
         warnings.simplefilter("ignore")
         # 1. configuration table, forward part
@@ -225,7 +226,55 @@ def run(ctx):
             tnodes = np.tan(tg * 0.5 * (tu - tl) + 0.5 * (tu + tl))
             if len(calls) != 201 or not np.allclose(np.array(calls[1:]), tnodes, rtol=1e-10, atol=1e-12):
                 ctx.violation("quad/inf/nodes", "nodes for (%s, %s) are not tan of the Gauss nodes on (atan xl, atan xu)" % (lo, hi), {"limits": [lo, hi]})
-    ctx.replayed = nexec[0]
+        # 4. histories of calls in one process (QuadHistory.tla): the rule of a call does not depend on earlier calls
+        base = dict(MaxLen=3, KeyedByPrecision=True)
+        t, cf = tlcmod.gen_mc(ctx.work, "QuadHistory", "MC_QH", base, invariants=["RuleInCallPrecision"])
+        dot = os.path.join(ctx.work, "qh.dot")
+        ctx.model_check(t, cf, workers=4, dump_dot=dot, label="call histories", timeout=300)
+        hnodes, _, _ = tlcmod.parse_dot(dot)
+        os.remove(dot)
+        t2, cf2 = tlcmod.gen_mc(ctx.work, "QuadHistory", "MC_QH_dev", dict(base, KeyedByPrecision=False), invariants=["RuleInCallPrecision"])
+        ctx.expect_violation(t2, cf2, inv="RuleInCallPrecision", label="deviation KeyedByPrecision", workers=4, timeout=300)
+        full = sorted([h_["hist"] for h_ in hnodes.values() if len(h_["hist"]) == 3], key=lambda h_: [(c_["call"]["dtype"], c_["call"]["n"]) for c_ in h_])
+        TD = {"f32": torch.float32, "f64": torch.float64}
+        for hi, hist in enumerate(full):
+            nmap = {"na": 14 + 2 * hi, "nb": 15 + 2 * hi}      # every history gets point counts no other history uses
+            nhist += 1
+            n += 1
+            ctx.case(key=("history", tuple((c_["call"]["dtype"], c_["call"]["n"]) for c_ in hist)))
+            for pos, c_ in enumerate(hist):
+                dt_, nq = TD[c_["call"]["dtype"]], nmap[c_["call"]["n"]]
+                calls = []
+
+                def fh(x, calls=calls, nq=nq, dt_=dt_):
+                    calls.append(float(x))
+                    e = torch.zeros(nq + 1, dtype=dt_)
+                    e[min(len(calls) - 1, nq)] = 1.0
+                    return e
+                why = None
+                try:
+                    out = xitorch.integrate.quad(fh, torch.tensor(-0.5, dtype=dt_), torch.tensor(1.5, dtype=dt_), n=nq)
+                    w = out[1:].detach().to(DT)
+                    xi = (torch.tensor(calls[1:], dtype=DT) - 0.5) / 1.0
+                    tolh = (1e-11 if dt_ == torch.float64 else 2e-5) * max(nq, 4)
+                    if out.dtype != dt_:
+                        why = "result dtype %s for a %s call" % (out.dtype, dt_)
+                    elif len(calls) != nq + 1:
+                        why = "%d evaluations for an %d-point rule" % (len(calls) - 1, nq)
+                    else:
+                        for k in range(0, min(2 * nq, 40)):
+                            m = float((w * legendre(k, xi)).sum())
+                            if abs(m - (2.0 if k == 0 else 0.0)) > tolh:
+                                why = "sum_i w_i P_%d(x_i) = %.3e instead of %s: not the %s Gauss rule" % (k, m, 2 if k == 0 else 0, c_["call"]["dtype"])
+                                break
+                except Exception as e:
+                    why = "raised %s: %s" % (type(e).__name__, str(e)[:100])
+                if why:
+                    ctx.violation("quad/history/%s-after-%s" % (c_["call"]["dtype"], "+".join(sorted(set(p_["call"]["dtype"] for p_ in hist[:pos]))) or "nothing"),
+                                  "quad(n=%d, %s) as call %d of the history %s: %s" % (nq, c_["call"]["dtype"], pos + 1, [(p_["call"]["dtype"], nmap[p_["call"]["n"]]) for p_ in hist], why),
+                                  {"history": [(p_["call"]["dtype"], nmap[p_["call"]["n"]]) for p_ in hist]})
+                    break
+    ctx.replayed = nexec[0] + nhist
     ctx.notes.update(cases=n)
     ctx.exhaustive = True
     ctx.assumptions += [
